@@ -71,3 +71,10 @@ Theorem C07_reserved_names_refused :
     has_reserved true claims = true -> issue E claims paths max_decoys cnf header = Fail.
 Proof. exact issue_reserved_refused. Qed.
 Print Assumptions C07_reserved_names_refused.
+
+(* a cnf claim of the caller cannot coexist with the holder key the issuer writes under cnf: refused (repair F21) *)
+Theorem C07_own_cnf_with_key_binding_refused :
+  forall E claims paths (max_decoys : option BinNums.Z) k header,
+    jhas_ "cnf" claims = true -> issue E claims paths max_decoys (Some k) header = Fail.
+Proof. exact issue_own_cnf_refused. Qed.
+Print Assumptions C07_own_cnf_with_key_binding_refused.
